@@ -72,6 +72,12 @@ def realise(r, base, h, writes, variant):
         ws = [("add",) + w[1:] if w[0] == "set" else w for w in ws]
     if variant == "twice":       # intermediate values do not matter, only the final change set
         ws = [("set", w[1], w[2], b"tmp") for w in ws if w[0] == "set"] + ws
+    if variant == "failed":      # failed (reverted) storage writes before / after the real ones leave no trace
+        out = []
+        for w in ws:
+            seg = [("snap",), ("set", w[1], w[2], b"junk"), ("revert", 0), ("finalise",)] if w[0] == "set" else []
+            out += (seg + [w]) if r.random() < 0.5 else ([w, ("finalise",)] + seg)
+        ws = out
     return base + pre + ws + [("flush",), ("commit", h + 1)]
 
 
@@ -84,7 +90,7 @@ def perm_group(r, exhaustive=False):
         perms = perms[:4]
     group = []
     for i, p in enumerate(perms):
-        variant = "plain" if exhaustive else r.choice(["plain", "reopen", "evict", "reads", "add", "twice"])
+        variant = "plain" if exhaustive else r.choice(["plain", "reopen", "evict", "reads", "add", "twice", "failed", "failed"])
         group.append(realise(r, base, h, list(p), variant))
     return group
 
@@ -239,6 +245,8 @@ def run(ctx):
         groups += [perturb_group(r) for _ in range(nq)]
         groups += [noop_group(r) for _ in range(nn)]
         groups += [lc.scen_reverted_setcode_root(r) for _ in range(8 if ctx.quick else 100)]
+        groups += [lc.scen_failed_write_after_delete(r) for _ in range(10 if ctx.quick else 150)]
+        groups += [lc.scen_created_account_storage(r) for _ in range(8 if ctx.quick else 100)]
         tot = {}
         step = 150
         for s in range(0, len(groups), step):
